@@ -307,12 +307,56 @@ def unit_struct(g, depth, last, eop_ok):
     return [D.value(g.name(), gen_struct(g, depth + 1, eop_ok and last))]
 
 
+def dyn_max_bytes(dct):
+    """largest number of bytes an object of a LEADING-LENGTH / MIN-MAX type occupies for the values `values.gen_internal`
+    generates (None: not bounded / not such a type)"""
+    if isinstance(dct, D.Leading):
+        return (dct.bitlen + 7) // 8 + min((1 << dct.bitlen) - 1, 6)
+    if isinstance(dct, D.MinMax) and dct.term != "END-OF-PDU":
+        return (dct.max if dct.max is not None else dct.min + 6) + (2 if dct.bt == "A_UNICODE2STRING" else 1)
+    return None
+
+
+def struct_max_extent(st):
+    """upper bound of the bytes an instance of the structure occupies for generated values: sequential static parameters plus
+    LEADING-LENGTH / MIN-MAX objects (None = no bound known)"""
+    if st.bytesize is not None:
+        return st.bytesize
+    e = params_extent(st.params)
+    if e is not None:
+        return e
+    if any(p.bytepos is not None for p in st.params):
+        return None
+    tot = 0
+    for p in st.params:
+        e = param_extent(p)
+        if e is None and isinstance(p.dop, D.SimpleDop):
+            e = dyn_max_bytes(p.dop.dct)
+        if e is None:
+            return None
+        tot += e
+    return tot
+
+
 def unit_static_field(g, depth, last, eop_ok):
+    """STATIC-FIELD; 30 % (full tier): the item structure has an input-dependent size (a LEADING-LENGTH or terminated
+    MIN-MAX object among static parameters), ITEM-BYTE-SIZE reserves room for the largest generated value"""
     rng = g.rng
     g.in_field += 1
     item = gen_struct(g, depth + 1, False, static=True, min_bytes=1)
+    if g.profile.tier == "full" and item.bytesize is None and all(p.bytepos is None for p in item.params) and rng.random() < 0.3:
+        if rng.random() < 0.5:
+            bt = rng.choice(["A_BYTEFIELD", "A_BYTEFIELD", "A_ASCIISTRING", "A_UTF8STRING", "A_UNICODE2STRING"])
+            dct = D.Leading(bt, rng.choice([8, 8, 16, 4, 3, 12]), None, rng.choice([None, True, False]))
+        else:
+            bt = rng.choice(["A_BYTEFIELD", "A_ASCIISTRING", "A_UTF8STRING", "A_UNICODE2STRING"])
+            unit = 2 if bt == "A_UNICODE2STRING" else 1
+            mn = unit * rng.randint(0, 2)
+            dct = D.MinMax(bt, mn, rng.choice([None, mn + unit * rng.randint(0, 3)]), rng.choice(["ZERO", "HEX-FF"]),
+                           rng.choice(D.LEGAL_ENCODINGS[bt]) if bt != "A_BYTEFIELD" else None, rng.choice([None, True, False]))
+        item.params.insert(rng.choice([1, len(item.params), len(item.params)]), D.value(g.name(), D.SimpleDop(dct, bt)))
     g.in_field -= 1
-    ext = dop_extent(item)
+    ext = struct_max_extent(item)
     return [D.value(g.name(), D.StaticField(rng.randint(1, 3), ext + rng.choice([0, 0, 1, 3]), item))]
 
 
@@ -393,10 +437,28 @@ def unit_mux(g, depth, last, eop_ok):
     return [D.value(g.name(), D.Mux(ksize + gap, 0, kbp, kd, cases, default))]
 
 
+#: LINEAR compu methods of length keys: bit length = num0 + num1 * x (x = the integer on the wire): the key counts bytes, counts
+#: bytes including itself, counts bits with an offset, ...; every multiple of 8 up to 64 has an inverse image >= 0
+KEY_LINEAR = [(0, 8), (-8, 8), (-16, 8), (8, 8), (-8, 1), (0, 4), (-32, 2), (0, 1)]
+
+
+def gen_length_key_dop(rng):
+    """DOP of a LENGTH-KEY: unsigned identical (60 %), signed identical, or LINEAR (physical value can be negative or, with an
+    unsigned physical type, invalid for small keys)"""
+    r = rng.random()
+    if r < 0.6:
+        return uint_dop(rng, bitlen_choices=(8, 8, 16, 7, 12))
+    if r < 0.7:
+        return D.SimpleDop(D.Std("A_INT32", rng.choice([8, 16, 12]), rng.choice([None, "2C", "SM", "1C"]), rng.choice([None, False])), "A_INT32")
+    kd = uint_dop(rng, bitlen_choices=(8, 8, 16, 7, 12))
+    num0, num1 = rng.choice(KEY_LINEAR)
+    return D.SimpleDop(kd.dct, rng.choice(["A_INT32", "A_INT32", "A_UINT32"]) if num0 < 0 else rng.choice(["A_INT32", "A_UINT32"]), D.Linear(num0, num1, 1))
+
+
 def unit_length_key(g, depth, last, eop_ok):
     rng = g.rng
     kname = g.name("k")
-    kd = uint_dop(rng, bitlen_choices=(8, 8, 16, 7, 12))
+    kd = gen_length_key_dop(rng)
     # (bit positions that make the key cross a byte boundary included: the placeholder must reserve those bytes too)
     key = D.length_key(kname, kd, bitpos=rng.choice([None, None, 0, 1, 3, 4, 7]))
     user = D.value(g.name(), gen_simple_dop(g, key_for_paramlen=kname))
@@ -671,7 +733,7 @@ def wf_static(comp):
                     e = params_extent(st.params)
                     if st.bytesize is not None and e is not None and e > st.bytesize:
                         return False
-                    if isinstance(d, D.StaticField) and (dop_extent(st) is None or dop_extent(st) > d.itemsize):
+                    if isinstance(d, D.StaticField) and (struct_max_extent(st) is None or struct_max_extent(st) > d.itemsize):
                         return False
         i += 1
     return True
@@ -897,6 +959,64 @@ def enum_struct_offsets():
                         inner = D.Struct([D.value("h", D.u8()), D.value("in_", inner)], bytesize=1 + content + pad + pad)
                     ps = [D.value(f"o{i}", D.u8()) for i in range(off)] + [D.value("s", inner), D.value("y", D.u8())]
                     yield D.Composite(f"S{n}", "request", ps)
+
+
+def enum_dynamic_static_fields():
+    """STATIC-FIELDs whose item structure has an input-dependent size: a LEADING-LENGTH, terminated MIN-MAX or PARAM-LENGTH
+    object (with its LENGTH-KEY inside the item) x 1-3 items x static parameters before / behind it in the item x
+    ITEM-BYTE-SIZE tight or with slack x nothing / one / two bytes behind the field, in `[sid, f, (y)]`"""
+    n = 0
+    kinds = [("lead8", lambda: D.Leading("A_BYTEFIELD", 8)), ("lead16s", lambda: D.Leading("A_UTF8STRING", 16, None, False)),
+             ("lead4", lambda: D.Leading("A_BYTEFIELD", 4)), ("mm-zero", lambda: D.MinMax("A_BYTEFIELD", 0, 3, "ZERO")),
+             ("mm-ff", lambda: D.MinMax("A_ASCIISTRING", 1, None, "HEX-FF")), ("mm-u2", lambda: D.MinMax("A_UNICODE2STRING", 0, 4, "ZERO")),
+             ("paramlen", None), ("paramlen-str", None)]
+    for kind, mk in kinds:
+        for count in (1, 2, 3):
+            for head in (False, True):
+                for tail in (False, True):
+                    for slack in (0, 2):
+                        for after in (0, 1, 2):
+                            n += 1
+                            ps = [D.value("h", D.u8())] if head else []
+                            if mk is None:
+                                bt = "A_BYTEFIELD" if kind == "paramlen" else "A_UTF8STRING"
+                                ps += [D.length_key("k", D.u8()), D.value("d", D.SimpleDop(D.ParamLen(bt, "k"), bt))]
+                                mx = 1 + 5
+                            else:
+                                dct = mk()
+                                ps.append(D.value("d", D.SimpleDop(dct, dct.bt)))
+                                mx = dyn_max_bytes(dct)
+                            if tail:
+                                ps.append(D.value("t", D.u8(16)))
+                            size = mx + (1 if head else 0) + (2 if tail else 0) + slack
+                            top = [D.sid(), D.value("f", D.StaticField(count, size, D.Struct(ps)))]
+                            if after:
+                                top.append(D.value("y", D.u8(8 * after)))
+                            c = D.Composite(f"F{n}", "request", top)
+                            c.meta = {"enum-kind": kind}
+                            yield c
+
+
+def enum_length_keys():
+    """LENGTH-KEY DOPs (identical unsigned / signed, every LINEAR variant of KEY_LINEAR with signed and unsigned physical type)
+    x PARAM-LENGTH-INFO users of every base type x with / without a parameter behind the user, in `[sid, k, x, (y)]`"""
+    n = 0
+    kds = [("u8", D.u8()), ("i8", D.SimpleDop(D.Std("A_INT32", 8), "A_INT32")), ("i16sm", D.SimpleDop(D.Std("A_INT32", 16, "SM", False), "A_INT32"))]
+    for num0, num1 in KEY_LINEAR:
+        for phys in ("A_INT32", "A_UINT32"):
+            kds.append((f"lin{num0}_{num1}_{phys}", D.SimpleDop(D.Std("A_UINT32", 8), phys, D.Linear(num0, num1, 1))))
+    for tag, kd in kds:
+        # (no float users: a PARAM-LENGTH float whose key is not 32 / 64 is reported as a plain OdxError "bit length of FLOAT32 values
+        #  must be 32 bits" - classified as an ill-formed description by C05_error_classes, see design_notes/C05.md round 3)
+        for bt in ("A_BYTEFIELD", "A_ASCIISTRING", "A_UTF8STRING", "A_UNICODE2STRING", "A_UINT32", "A_INT32"):
+            for after in (False, True):
+                n += 1
+                ps = [D.sid(), D.length_key("k", kd), D.value("x", D.SimpleDop(D.ParamLen(bt, "k", None, None if n % 3 else False), bt))]
+                if after:
+                    ps.append(D.value("y", D.u8()))
+                c = D.Composite(f"K{n}", "request", ps)
+                c.meta = {"enum-key": tag.split("_")[0]}
+                yield c
 
 
 def enum_texttables():
